@@ -105,7 +105,7 @@ func c18cli(c *ev.Ctx) {
 		{"ecdsa-malformed", ecMalformed, "bad"}, {"unknown-ssh-type", unknownTypeBlob, "bad"},
 		{"age-recipient-substituted", rcA[:20] + "q" + rcA[21:], "bad"}, {"space+recipient", " " + rcA, "bad"}, {"recipient+space", rcA + " ", "bad"}, {"identity-in-recipients-file", idA, "bad"},
 		{"recipient-upper", strings.ToUpper(rcA), "bad"}, {"garbage", "hello", "bad"}, {"overlong", "ssh-ed25519 " + strings.Repeat("A", 9000), "bad"},
-		{"age-recipient-q-replaced", c18qsub(rcA, rcB), "bad"},
+		{"age-recipient-q-replaced", c18qsub(rcA, rcB), "bad"}, {"age-recipient-bech32m", refage.Bech32EncodeConst("age", keys.X(0).XPublic, refage.Bech32mConst), "bad"},
 		{"ssh-space+ed25519", " " + edLine, "bad"}, {"ssh-tab+rsa", "\t" + rsaLine, "bad"}, {"ssh-spaces+ed25519", "  " + edLine, "bad"},
 	}
 	if rcA[20] == 'q' {
@@ -117,7 +117,7 @@ func c18cli(c *ev.Ctx) {
 		{"identity-substituted", idA[:30] + "Q" + idA[31:], "bad"}, {"identity-truncated", idA[:len(idA)-2], "bad"}, {"identity-lower", strings.ToLower(idA), "bad"}, {"space+identity", " " + idA, "bad"},
 		{"tab+identity", "\t" + idA, "bad"}, {"identity+space", idA + " ", "bad"}, {"identity-prefix-typo", "AGE-SECRET-KEY-2" + idA[16:], "bad"}, {"identity-prefix-typo2", "AGE-SECRET-KEZ-1" + idA[16:], "bad"},
 		{"recipient-in-identities-file", rcA, "bad"}, {"garbage", "hello", "bad"}, {"ssh-line", edLine, "bad"},
-		{"identity-q-replaced", c18qsub(idA, idB), "bad"},
+		{"identity-q-replaced", c18qsub(idA, idB), "bad"}, {"identity-bech32m", refage.Bech32EncodeConst("AGE-SECRET-KEY-", keys.X(0).XSecret, refage.Bech32mConst), "bad"},
 	}
 	if idA[30] == 'Q' {
 		idAlpha[7].text = idA[:30] + "P" + idA[31:]
